@@ -1,6 +1,7 @@
 import EchoModel.RouterWire
 import EchoModel.RouterSpec
 import EchoModel.RouterInv
+import EchoModel.RouterEsc
 /-!
 # C01 — what a dispatched handler sees (router.go Find + context.go ParamValues)
 
@@ -105,6 +106,9 @@ def runLine (line : String) : String :=
                     | _, _ => encSpec (Spec.routeTable (Tree.dedupLast t) m p))
       ++ ["//", if inv.1 then "TI1" else "TI0", if inv.2 then "RS1" else "RS0",
           -- a well-formed table must pass both (the statement of the insert-correctness theorem)
-          if Tree.okTable t then (if (inv.1 || t.isEmpty) && inv.2 then "WF1" else "WF-BUT-INVARIANT-FAILS") else "WF0"])
+          if Tree.okTable t then (if (inv.1 || t.isEmpty) && inv.2 then "WF1" else "WF-BUT-INVARIANT-FAILS") else "WF0",
+          -- the same for tables WITH escaped colons but without an escape conflict (`okTableE`, the hypothesis of
+          -- `build_tableInvariantE`): the harness computes the condition independently from the registered patterns
+          if Tree.okTableE t then (if (inv.1 || t.isEmpty) && inv.2 then "WE1" else "WE-BUT-INVARIANT-FAILS") else "WE0"])
 
 end C01
